@@ -438,6 +438,8 @@ pub enum Shape {
     QueuedCycle,
     /// one message carries a channel handle and the same object twice
     AliasedRequest,
+    /// several writer tasks and several reader tasks on one channel
+    WorkPool,
 }
 
 pub const DETERMINATE: &[Shape] = &[
@@ -461,12 +463,13 @@ pub const ALL: &[Shape] = &[
     Shape::ChannelInMessage,
     Shape::QueuedCycle,
     Shape::AliasedRequest,
+    Shape::WorkPool,
 ];
 
 pub fn generate(rng: &mut Rng, shapes: &[Shape], print_from_main: bool) -> Workload {
     let shape = *rng.pick(shapes);
     let mut kind = *rng.pick(KINDS);
-    if shape == Shape::AliasedRequest && kind == Kind::BigArr {
+    if (shape == Shape::AliasedRequest || shape == Shape::WorkPool) && kind == Kind::BigArr {
         // three large arrays rendered per request would dominate the run
         kind = Kind::Arr;
     }
@@ -695,6 +698,36 @@ pub fn generate(rng: &mut Rng, shapes: &[Shape], print_from_main: bool) -> Workl
                 let v = kind.mk(0, i);
                 obs.push((i, format!("{}/{}", v.touch(4).show(), v.show())));
             }
+        }
+        Shape::WorkPool => {
+            let writers = rng.range(2, 3) as i64;
+            let readers = rng.range(2, 3) as i64;
+            // every reader takes the same number of values; writers produce exactly that total
+            let per_reader = rng.range(1, 3) as i64 * writers;
+            let per_writer = per_reader * readers / writers;
+            src.push_str(&format!("fn produce(out: channel<{ty}>, w: int, n: int, pad: int) {{\n    work(pad)\n    for i in n {{\n        out.write(mk(w, i))\n"));
+            src.push_str(&maybe_pause(rng, "        "));
+            src.push_str("    }\n}\n");
+            src.push_str(&format!("fn consume(inp: channel<{ty}>, out: channel<string>, n: int) {{\n    for i in n {{\n        let x = inp.read()\n"));
+            src.push_str(&maybe_work(rng, "        "));
+            src.push_str("        out.write(show(x))\n    }\n}\n\n");
+            src.push_str(&format!("let c: channel<{ty}> = channel()\nlet res: channel<string> = channel()\n"));
+            for _ in 0..readers {
+                src.push_str(&format!("task {{\n    consume(c, res, {per_reader})\n}}\n"));
+            }
+            for w in 1..=writers {
+                // different start-up work per writer, so their writes fall into the same or
+                // into different scheduler rounds depending on the program
+                src.push_str(&format!("task {{\n    produce(c, {w}, {per_writer}, {})\n}}\n", rng.below(6)));
+            }
+            src.push_str(&format!("for i in {} {{\n    {}}}\n", per_reader * readers, say(7, "res.read()")));
+            for w in 1..=writers {
+                for i in 0..per_writer {
+                    obs.push((7, kind.mk(w, i).show()));
+                }
+            }
+            sorted_only = true;
+            projection = Projection::None;
         }
         Shape::AliasedRequest => {
             // field order is drawn per program: the handle may come before, between or after the
